@@ -70,6 +70,9 @@ class State:
         self.guards = []   # (op, linA, linB) assumed on the path
         self.called = []   # (callee, truth) boolean call results assumed
         self.discr = []    # (value, frozenset(variants)) discriminant edges taken
+        self.version = {}  # local -> number of stores into it on this path
+        self.propagate = True  # let a difference constraint tighten the intervals of its two atoms
+        self.memo = {}     # (pure getter, place key, version) -> its value
 
     def copy(self):
         s = State()
@@ -82,6 +85,9 @@ class State:
         s.guards = list(self.guards)
         s.called = list(self.called)
         s.discr = list(self.discr)
+        s.version = dict(self.version)
+        s.propagate = self.propagate
+        s.memo = dict(self.memo)
         return s
 
     def atom(self, name, lo, hi):
@@ -183,6 +189,15 @@ class State:
                 if lo > hi:
                     raise Infeasible()
                 self.diff[key] = [lo, hi]
+                # a - b in [lo, hi] also bounds each atom through the other's interval
+                if not self.propagate:
+                    return True
+                (alo, ahi), (blo, bhi) = self.iv[a], self.iv[b]
+                na = [max(alo, blo + lo), min(ahi, bhi + hi)]
+                nb = [max(blo, alo - hi), min(bhi, ahi - lo)]
+                if na[0] > na[1] or nb[0] > nb[1]:
+                    raise Infeasible()
+                self.iv[a], self.iv[b] = na, nb
                 return True
         return False
 
@@ -215,7 +230,8 @@ NEG = {'Lt': 'Ge', 'Ge': 'Lt', 'Gt': 'Le', 'Le': 'Gt', 'Eq': 'Ne', 'Ne': 'Eq'}
 class PathEval:
     """Enumerate the paths of a loop-free function; `on_return(path, state)` is called per complete path."""
 
-    def __init__(self, fn, param_atoms, max_paths=4096, prog=None, atom_ranges=None):
+    def __init__(self, fn, param_atoms, max_paths=4096, prog=None, atom_ranges=None, propagate=True):
+        self.propagate = propagate
         self.prog = prog
         self.atom_ranges = atom_ranges or {}
         self.fn = fn
@@ -226,6 +242,12 @@ class PathEval:
         self.paths = 0
         self.obligations = []   # {'kind','pos','detail','ok'}
         self.results = []
+        # locals that are mutably borrowed somewhere: their fields may change behind the evaluator's back
+        self.borrowed = set()
+        for b in range(fn.n):
+            for s_ in fn.blocks[b]['st']:
+                if s_['k'] == 'assign' and s_['rv']['k'] in ('ref', 'rawptr') and s_['rv'].get('mut'):
+                    self.borrowed.add(s_['rv']['pl']['l'])
 
     # ---- values
     def key(self, pl):
@@ -254,7 +276,7 @@ class PathEval:
                 i = o['pl']['p'][0]['i']
                 if i < len(base[2]):
                     return base[2][i]
-            ty = self.fn.locals[l] if not o['pl']['p'] else (o['pl']['p'][-1].get('ty') or '')
+            ty = self.fn.locals[l] if not o['pl']['p'] else (o['pl']['p'][-1].get('ty') or _place_ty(self.fn, o['pl']))
             r = int_range(ty)
             if r:
                 v = st.fresh_atom('_%d' % l, r[0], r[1])
@@ -278,6 +300,7 @@ class PathEval:
         kind = rv['k']
         dty = fn.locals[pl['l']] if not pl['p'] else ''
         val = ('opaque', k)
+        st.version[pl['l']] = st.version.get(pl['l'], 0) + 1
         if kind == 'use':
             val = self.read(st, rv['o'])
         elif kind == 'cast':
@@ -390,6 +413,17 @@ class PathEval:
                 val = st.fresh_atom('min', min(l0, l1), min(h0, h1))
             else:
                 val = st.fresh_atom('max', max(l0, l1), max(h0, h1))
+        if val is None and last == 'get' and 'NonZero' in name and len(args) == 1 and isinstance(args[0], tuple) and args[0][0] == 'opaque' \
+                and args[0][1] and args[0][1][0] not in self.borrowed:
+            # NonZero::get of the same unmodified field is the same number
+            mk = (name, args[0][1], st.version.get(args[0][1][0], 0))
+            if mk in st.memo:
+                val = st.memo[mk]
+            else:
+                r = int_range(dty)
+                if r:
+                    val = st.fresh_atom('NonZero::get', max(r[0], 1) if r[0] >= 0 else r[0], r[1])
+                    st.memo[mk] = val
         if val is None and last == 'new' and 'RangeInclusive' in name and len(args) == 2:
             val = ('agg', 'RangeInclusive', args, 'RangeInclusive')
         if val is None and last == 'contains' and len(args) == 2 and isinstance(args[0], tuple) and args[0][0] == 'agg' and len(args[0][2]) == 2 \
@@ -461,6 +495,7 @@ class PathEval:
     # ---- driver
     def run(self, on_return):
         st = State()
+        st.propagate = self.propagate
         self._walk(0, st, [0], on_return)
 
     def _walk(self, b, st, path, on_return):
@@ -517,6 +552,27 @@ class PathEval:
             return
         # unreachable / resume: no result
         return
+
+
+def _place_ty(fn, pl):
+    """Type of a place reached through deref / index projections, from the printed type of its base local
+    ('' when it cannot be told): `&[u8]` -> `[u8]` -> `u8`."""
+    ty = fn.locals[pl['l']]
+    for x in pl['p']:
+        k = x['k']
+        if k == 'field':
+            ty = x.get('ty') or ''
+        elif k == 'deref':
+            m = re.match(r"^(?:&(?:'\w+ )?(?:mut )?|\*(?:const|mut) )(.*)$", ty)
+            ty = m.group(1) if m else ''
+        elif k in ('index', 'cindex'):
+            m = re.match(r'^\[(.*?)(?:; [^;\]]+)?\]$', ty)
+            ty = m.group(1) if m else ''
+        else:
+            ty = ''
+        if not ty:
+            return ''
+    return ty
 
 
 def _split(v, truth):
